@@ -463,6 +463,8 @@ func exec(st *mocktikv.MVCCLevelDB, c string) (res string) {
 			}
 		}
 		return "K[" + strings.Join(p, ";") + "]"
+	case "slh": // handler-level scan lock: slh s e limit max
+		return scanLockHandler(st, f)
 	case "gc":
 		return errc(st.GC(kb(pu(f[1])), kb(pu(f[2])), pu(f[3])))
 	case "rcget", "rcbg", "rcsc", "rcrs": // isolation level RC: rcget k ts | rcbg keys ts | rcsc s e limit ts | rcrs s e limit ts
